@@ -20,7 +20,7 @@ PROPERTIES OverflowStep RoomAgain
 
 def run(chk, tier, seed):
     thorough = tier == "thorough"
-    caps = [1, 2, 3, 0] if not thorough else [1, 2, 3, 4, 0]
+    caps = [1, 2, 3, 0] if not thorough else [1, 2, 3, 4, 5, 0]
     # 1. design level: the declarative FIFO/bound/marker statements hold of the model (ghost on)
     for cap in caps:
         mh = (cap + 2) if cap else 4
@@ -80,7 +80,7 @@ def run(chk, tier, seed):
     for e in edges[:2] + edges[len(edges) // 2: len(edges) // 2 + 2]:
         chk.sample({"edge": e})
     # 3. impl -> spec: long random histories on all capacities validated by TraceErrQueue
-    ops = 1500 if not thorough else 20000
+    ops = 1500 if not thorough else 150000
     tp = os.path.join(wd, "trace.ndjson")
     harness(["queue-trace", "--seed", seed, "--ops", ops, "--out", tp])
     nlines = sum(1 for _ in open(tp))
